@@ -534,6 +534,24 @@ def run(ctx):
         ctx.coverage.update(bcov)
     finally:
         shutil.rmtree(wd, ignore_errors=True)
+    # a restart is also a restart on the file an EARLIER life of the server - earlier code - wrote: what that life
+    # acknowledged (corpus/legacy_db with its manifest) is what the restarted server serves; histories with further
+    # restarts on it (the durability and identifier monitors of the old-file part, under this property's name)
+    import legacy_db_check
+
+    class _Here(object):
+        def __init__(self, c):
+            self.__dict__["c"] = c
+
+        def __getattr__(self, k):
+            return getattr(self.c, k)
+
+        def __setattr__(self, k, v):
+            setattr(self.c, k, v)
+
+        def report(self, sig, what, rep=None, **kw):
+            return self.c.report(sig.replace("c07:legacy:", "c09:restart-on-old-file:", 1), what, rep, **kw)
+    legacy_db_check.hook(_Here(ctx), "c07")
 
 
 def search(ctx, broken):
@@ -541,6 +559,9 @@ def search(ctx, broken):
 
 
 def replay(ctx, rep):
+    import legacy_db_check
+    if legacy_db_check.is_mine(rep):
+        return legacy_db_check.replay(ctx, rep)
     r = rep.get("replay", rep)
     c2 = type(ctx)(ctx.pid, "thorough", ctx.seed, None)
     run(c2)
